@@ -255,3 +255,27 @@ func ThresholdSizes(lo, hi int) []int {
 	sort.Ints(out)
 	return out
 }
+
+// SizesAround returns, ascending and without duplicates, the sizes 2^p+d for
+// p in [plo, phi] and d in ds, together with every ThresholdSizes value in
+// [2^plo-1, 2^phi+1]: the size-like coordinate of the "big" families.
+func SizesAround(plo, phi uint, ds []int) []int {
+	seen := map[int]bool{}
+	var out []int
+	for p := plo; p <= phi; p++ {
+		for _, d := range ds {
+			if n := 1<<p + d; n > 0 && !seen[n] {
+				seen[n] = true
+				out = append(out, n)
+			}
+		}
+	}
+	for _, n := range ThresholdSizes(1<<plo-1, 1<<phi+1) {
+		if !seen[n] {
+			seen[n] = true
+			out = append(out, n)
+		}
+	}
+	sort.Ints(out)
+	return out
+}
